@@ -292,7 +292,38 @@ func (e *sxEngine) set(f *ssa.Function, v ssa.Value, env map[*ssa.Parameter]stri
 		return env[x]
 	case *ssa.Call:
 		if g := calleeOf(x); g != nil && e.w.InModule(g) && g.Blocks != nil {
-			return e.summary(g, x.Call.Args, f, env, depth+1)
+			base := e.summary(g, x.Call.Args, f, env, depth+1)
+			// s := setOf(l1); for _, d := range l2 { s[d] = struct{}{} }: the helper's set plus
+			// what this function inserts into it with total loops
+			if strings.HasPrefix(base, "set{") && strings.HasSuffix(base, "}") && x.Referrers() != nil {
+				lists := splitTop(base[4 : len(base)-1])
+				for _, ref := range *x.Referrers() {
+					mu, ok := ref.(*ssa.MapUpdate)
+					if !ok {
+						continue
+					}
+					found := false
+					for _, sr := range findSliceRanges(f) {
+						if !sr.blocks()[mu.Block()] || !sr.isElem(resolve(mu.Key)) {
+							continue
+						}
+						if !totalLoop(sr.blocks(), sr.Header) || reachableFrom(sr.Body, map[*ssa.BasicBlock]bool{mu.Block(): true})[sr.Header] {
+							return ""
+						}
+						l := e.list(f, sr.X, env, depth+1)
+						if l == "" {
+							return ""
+						}
+						lists = append(lists, l)
+						found = true
+					}
+					if !found {
+						return ""
+					}
+				}
+				return sxSet(lists)
+			}
+			return base
 		}
 		return ""
 	case *ssa.MakeMap:
